@@ -21,7 +21,7 @@ ASSUMPTIONS = ['index expressions the library documents as unsupported (short tu
                'negative steps) are outside this workload - they must raise (C18)']
 REQUIRED_REACH = ['_tt_base:TT.__getitem__', '_tt_base:TT.reduce_dims', '_aux_ops:apply_mask', '_tt_base:TT.apply_mask']
 REQUIRED_COUNTS = {'history_value_checks': 200, 'branch:tuple/tensor': 1, 'branch:tuple/operator': 1, 'branch:bare-int': 1, 'branch:bare-slice': 1, 'branch:bare-ellipsis': 1,
-                   'branch:ellipsis-leading': 1, 'branch:ellipsis-trailing': 1, 'branch:none': 1, 'apply_mask/M=1': 1, 'apply_mask/M>1': 1,
+                   'branch:ellipsis-leading': 1, 'branch:ellipsis-trailing': 1, 'branch:none': 1, 'apply_mask/M=1': 1, 'apply_mask/M>1': 1, 'apply_mask/M>16384': 1,
                    'kind:len1-slice': 1, 'kind:negative-int': 1, 'kind:stepped': 1, 'kind:singleton-mode': 1, 'exact_comparisons': 100}
 LINE_FUNCS = ['TT.__getitem__', 'TT.reduce_dims', 'apply_mask']
 
@@ -136,6 +136,11 @@ def cases(tier, seed):
         N = [rng.choice((1, 2, 3, 4)) for _ in range(d)]
         cs.append({'gen': 'mask', 'N': N, 'R': gens.rank_profile(rng, d, 'rand', 3), 'Mrows': [1, 2, 7, 1, 30][i % 5], 'exhaustive': i % 7 == 0,
                    'dtype': ['f64', 'f32', 'c128'][i % 3], 'vals': 'int'})
+    # long index lists (a list evaluated in blocks must still return every row): lengths around powers of two and well beyond them
+    for i, m in enumerate([1000, 4097, 16385, 20000, 40001, 70001] * (1 if not thorough else 6)):
+        d = rng.randint(2, 4)
+        cs.append({'gen': 'mask', 'N': [rng.choice((2, 3, 4)) for _ in range(d)], 'R': gens.rank_profile(rng, d, 'rand', 3), 'Mrows': m + (i // 6) * 1111, 'exhaustive': False,
+                   'dtype': ['f64', 'c128', 'f32'][i % 3], 'vals': 'int'})
     from .. import hist
     cs += hist.cases(PROP, tier, seed)
     return cs
@@ -289,6 +294,8 @@ def run_mask(case, ctx, g):
         ctx.count('apply_mask/negative-entries-or-repeated-rows')
     Mrows = I.shape[0]
     ctx.count('apply_mask/M=1' if Mrows == 1 else 'apply_mask/M>1')
+    if Mrows > 16384:
+        ctx.count('apply_mask/M>16384')
     key = 'apply_mask/%s' % ('M=1' if Mrows == 1 else 'M>1')
     what = 'apply_mask N=%s R=%s rows=%d %s' % (N, case['R'], Mrows, case['dtype'])
     ref = dx[tuple(I[:, k] for k in range(d))]
